@@ -791,8 +791,10 @@ func (fr *frame) oblige(kind, sub, anchor string, st *State, goal string, desc s
 		fr.witness = nil
 	}
 	vc.obls = append(vc.obls, ob)
-	// after checking, assume it
-	vc.fact(implies(st.reach, goal))
+	// after checking, assume it (conversions are modelled exactly instead)
+	if !(kind == "safe" && strings.HasPrefix(anchor, "convert:")) {
+		vc.fact(implies(st.reach, goal))
+	}
 }
 
 func instrPos(ins ssa.Instruction) token.Pos {
